@@ -893,6 +893,9 @@ request_finished(struct request *const req, struct request **head, int free_hand
 	    req->base->disable_when_inactive) {
 		event_del(&req->ns->event);
 		evtimer_del(&req->ns->timeout_event);
+		/* Nothing is left to be written, and with the event gone
+		 * nobody would tell us that the socket is writable again. */
+		req->ns->choked = 0;
 	}
 
 	if (!req->request_appended) {
